@@ -11,8 +11,8 @@ W_MC = 2
 from amaranth import Elaboratable as _Elab  # noqa: E402
 
 
-def C(kind, n=1, n2=0, mode="-", d=0, w=W_MC):
-    return {"kind": kind, "n": n, "n2": n2, "mode": mode, "d": d, "w": w}
+def C(kind, n=1, n2=0, mode="-", d=0, w=W_MC, cw=0):
+    return {"kind": kind, "n": n, "n2": n2, "mode": mode, "d": d, "w": w, "cw": cw}
 
 
 class Bank:
@@ -131,7 +131,9 @@ def build(cfg):
             b.single(tc, "c")
             dut = T.MethodFilter.create(t.iface, tc.iface, default)
         else:
-            dut = T.MethodFilter.create(t.iface, lambda m, v: v.data[0], default, use_condition=(mode == "cond"))
+            # cw = 1: a multi-bit condition value whose bit 0 is always clear (non-zero means true)
+            cf = (lambda m, v: v.data & ~1) if cfg.get("cw") else (lambda m, v: v.data[0])
+            dut = T.MethodFilter.create(t.iface, cf, default, use_condition=(mode == "cond"))
         methods = {"call": dut.method}
     elif kind == "product":
         ts = [b.add() for _ in range(n)]
@@ -365,6 +367,7 @@ def trace_cfgs(thorough):
             C("map", mode="fun", w=w), C("map", mode="fun", w=3), C("map", mode="meth", w=w),
             C("filter", mode="if", w=w), C("filter", mode="if", d=3, w=w), C("filter", mode="cond", w=w),
             C("filter", mode="cond", d=3, w=w), C("filter", mode="cond", d=5, w=3), C("filter", mode="meth", d=3, w=w),
+            C("filter", mode="if", d=3, w=w, cw=1), C("filter", mode="cond", d=3, w=w, cw=1), C("filter", mode="cond", d=5, w=3, cw=1),
             C("product", 1, mode="first", w=w), C("product", 2, mode="first", w=w), C("product", 2, mode="sum", w=w),
             C("product", 3, mode="sum", w=w), C("product", 3, mode="first", w=3),
             C("tryproduct", 1, mode="sd", w=w), C("tryproduct", 2, mode="sd", w=w), C("tryproduct", 2, mode="none", w=w),
